@@ -2,8 +2,18 @@
 LEAN_TARGETS = ["QmcProps.C11", "drv_c11"]
 BINS = ["c11"]
 
-# filled in by the Lean author
-THEOREMS = []
+THEOREMS = [
+    "getters_eq_scan",
+    "interface_algorithms_agree",
+    "new_inv",
+    "inv_implies_global",
+    "endsOK_of_inv",
+    "mutate_p_global",
+    "cursor_correct_partial",
+    "refine_step_partial",
+    "refine_step_partial_of_Inv",
+    "refine_seq_partial",
+]
 
 RULE = ("one PRNG (SplitMix64 from the seed) generates HISTORIES of mutations applied to a real qmc FastOps and replayed by the "
         "stateful Lean model: each history starts with `new` (nvars 1..6; bond counters absent ~40% or 1..6 bonds) or `install` "
